@@ -45,7 +45,10 @@ characters, non-ASCII package/file names, two-digit tab selectors, side files cr
 that is last or alone in the file, all-black labels, CRLF in .lua sources, a temporary directory on another file system, `~` in
 paths, nested require() directories, empty packages, `?` in the directory part of a load path, tab-indented directives, `-->8` tab
 lines, identifiers that are keywords in another letter case, runs of blank lines, --lua-path together with PICO8_LUA_PATH,
-names with double underscores, an explicit label_fname, one-line blocks inside short-if lines, a selector after a .lua name.
+names with double underscores, an explicit label_fname, one-line blocks inside short-if lines, a selector after a .lua name,
+PNG ancillary chunks, the type of the exception a writer raises, cart versions above 33, carts loaded from a stream without a
+file name, the newer (pxa) code compression, which of two matching files a load path picks, byte runs that look like UTF-8,
+addresses beyond 16 bits, leftover *_fmt files, buffers without padding, hex numerals directly followed by `..`.
 Look for something else, for example: a mask, shift or bit position that is off by one; signed/unsigned or 7-bit/8-bit handling;
 an inclusive/exclusive range end; integer division or rounding; the order in which two sections / options / passes are applied;
 an interaction between two command-line options or two library features that are each fine alone; a module-level table or
